@@ -823,13 +823,13 @@ def imageCellRel (vm : Nat) (nBk : Option Nat) (rcLen : Nat → Nat) (v : Int) (
   match nBk with
   | none => .ok false
   | some n =>
-    if vm > n then .ok false
+    if vm < 1 ∨ vm > n then .ok false
     else
       let i : Nat := if vm = 0 then 18446744073709551615 else vm - 1   -- uint arithmetic
       if ¬ (i < n) then .panic                                          -- vmd.Bk[*c.Vm-1]
       else if rcLen i = 0 then .ok false
       else if ¬ (0 < rcLen i) then .panic                               -- .Rc[0]
-      else if v ≥ (nRv : Int) then .ok false
+      else if v < 0 ∨ v ≥ (nRv : Int) then .ok false
       else if ¬ inRange v nRv then .panic                               -- richValue.Rv[richValueIdx]
       else .ok true
 
